@@ -454,6 +454,44 @@ pub fn run(cx: &mut Ctx) {
         })
     };
     let mut used_sites: BTreeSet<usize> = BTreeSet::new();
+    // The table names a position by the text of the rendered child (`arg`, `&kw.value`). When a local was merely
+    // renamed, the children of an arm that the table does not know pair up, in source order, with the table's
+    // children of that arm that have no site: same number of positions, same order => same positions.
+    let mut alias: BTreeMap<(String, String, String), String> = BTreeMap::new();
+    {
+        let mut table_order: Vec<((String, String), Vec<String>)> = vec![];
+        for pos in refd["positions"].as_array().unwrap() {
+            let k = (pos["fn"].as_str().unwrap_or("unparse_expr").to_string(), pos["arm"].as_str().unwrap_or("").to_string());
+            let c = pos["child"].as_str().unwrap_or("").to_string();
+            match table_order.iter_mut().find(|(kk, _)| *kk == k) {
+                Some((_, v)) => {
+                    if !v.contains(&c) {
+                        v.push(c);
+                    }
+                }
+                None => table_order.push((k, vec![c])),
+            }
+        }
+        for ((func, arm), tchildren) in table_order {
+            let mut schildren: Vec<String> = vec![];
+            for st in w.sites.iter().filter(|st| st.func == func && st.arm == arm) {
+                if !schildren.contains(&st.child) {
+                    schildren.push(st.child.clone());
+                }
+            }
+            let t_un: Vec<&String> = tchildren.iter().filter(|c| !schildren.contains(c)).collect();
+            let s_un: Vec<&String> = schildren.iter().filter(|c| !tchildren.contains(c)).collect();
+            if !t_un.is_empty() && t_un.len() == s_un.len() {
+                // a renamed child keeps its shape: `&kw.value` may become `&keyword.value`, not `other`
+                let shape = |x: &str| -> String { regex::Regex::new(r"[A-Za-z_][A-Za-z_0-9]*").unwrap().replace(x, "_").to_string() };
+                if t_un.iter().zip(&s_un).all(|(a, b)| shape(a) == shape(b)) {
+                    for (a, b) in t_un.iter().zip(&s_un) {
+                        alias.insert((func.clone(), arm.clone(), (*a).clone()), (*b).clone());
+                    }
+                }
+            }
+        }
+    }
     let cases_for = |arm: &str, w: &Walker| -> Vec<(String, String)> { w.optables.get(arm).map(|v| v.iter().map(|(var, _, p)| (var.clone(), p.clone())).collect()).unwrap_or_default() };
     for pos in refd["positions"].as_array().unwrap() {
         let arm = pos["arm"].as_str().unwrap_or("");
@@ -467,7 +505,8 @@ pub fn run(cx: &mut Ctx) {
             continue;
         }
         let required = if pos["tuple_ok"].as_bool() == Some(true) { levels["TUPLE"] } else { *nt_level.get(nt).unwrap_or(&99) };
-        let sites: Vec<(usize, &Site)> = w.sites.iter().enumerate().filter(|(_, s)| s.func == func && s.arm == arm && s.child == child).collect();
+        let site_child: &str = alias.get(&(func.to_string(), arm.to_string(), child.to_string())).map(|x| x.as_str()).unwrap_or(child);
+        let sites: Vec<(usize, &Site)> = w.sites.iter().enumerate().filter(|(_, s)| s.func == func && s.arm == arm && s.child == site_child).collect();
         if sites.is_empty() {
             cx.fail("C11.P2", &format!("{}/site-missing", key), &up.rel, &format!("no `unparse_expr({}, ..)` / Display use of `{}` in {}: the position table is out of date (fail closed)", child, child, if arm.is_empty() { func } else { arm }));
             continue;
@@ -943,8 +982,9 @@ fn infinite_constants(cx: &mut Ctx, up: &Src) {
     cases.push(("an integer constant".into(), V::Ctor("Constant::Int".into(), vec![V::Int(3)]), "display"));
     let mut bad = vec![];
     let total = cases.len();
-    for (name, value, want) in cases {
-        let actions: std::cell::RefCell<Vec<String>> = std::cell::RefCell::new(vec![]);
+    // statements are interpreted one by one; a call of another Unparser method is followed into that method's body
+    // (parameters bound to the argument values), so moving the arm into a helper changes nothing
+    fn run(up: &Src, stmts: &[syn::Stmt], binds: Vec<(String, V)>, actions: &std::cell::RefCell<Vec<String>>, depth: usize, last_err: &std::cell::RefCell<Option<String>>) {
         let methods = |recv: &V, m: &str, args: &[V]| -> Option<V> {
             match (recv, m) {
                 (V::Enum(r), "p") if r == "self" => {
@@ -965,48 +1005,56 @@ fn infinite_constants(cx: &mut Ctx, up: &Src) {
                     actions.borrow_mut().push("display".into());
                     Some(V::Unit)
                 }
+                (V::Enum(r), name) if r == "self" && depth < 3 => {
+                    let callee = up.method("Unparser", name)?;
+                    let params: Vec<String> = callee.sig.inputs.iter().filter_map(|a| if let syn::FnArg::Typed(pt) = a { Some(sm::tsc(&pt.pat)) } else { None }).collect();
+                    if params.len() != args.len() {
+                        return None;
+                    }
+                    run(up, &callee.block.stmts, params.into_iter().zip(args.iter().cloned()).collect(), actions, depth + 1, last_err);
+                    Some(V::Unit)
+                }
                 _ => None,
             }
         };
         let mut mach = Machine::new(&methods);
-        mach.set("value", value);
-        mach.set("kind", V::Opt(None));
-        // statements that set the scene (`assert_eq!`, the `u` prefix) may not be interpretable; the decision must be
-        let mut last_err: Option<String> = None;
-        for st in &stmts {
+        for (k, v) in binds {
+            mach.set(&k, v);
+        }
+        for st in stmts {
             let r = match st {
                 syn::Stmt::Expr(e, _) => mach.eval(e).map(|_| ()),
-                syn::Stmt::Local(_) => {
-                    let b = syn::Block { brace_token: Default::default(), stmts: vec![st.clone()] };
-                    // bind in the current scope: evaluate the initialiser and set the name
-                    if let syn::Stmt::Local(l) = st {
-                        let mut ids = vec![];
-                        sm::pat_idents(&l.pat, &mut ids);
-                        match (ids.as_slice(), &l.init) {
-                            ([id], Some(init)) => match mach.eval(&init.expr) {
-                                Ok(v) => {
-                                    mach.set(id, v);
-                                    Ok(())
-                                }
-                                Err(e) => Err(e),
-                            },
-                            _ => Err("let".into()),
-                        }
-                    } else {
-                        let _ = b;
-                        Ok(())
+                syn::Stmt::Local(l) => {
+                    let mut ids = vec![];
+                    sm::pat_idents(&l.pat, &mut ids);
+                    match (ids.as_slice(), &l.init) {
+                        ([id], Some(init)) => match mach.eval(&init.expr) {
+                            Ok(v) => {
+                                mach.set(id, v);
+                                Ok(())
+                            }
+                            Err(e) => Err(e),
+                        },
+                        _ => Err("let".into()),
                     }
                 }
                 _ => Ok(()),
             };
             if let Err(e) = r {
-                last_err = Some(e);
+                if !e.starts_with('\u{0}') {
+                    *last_err.borrow_mut() = Some(e);
+                }
             }
         }
+    }
+    for (name, value, want) in cases {
+        let actions: std::cell::RefCell<Vec<String>> = std::cell::RefCell::new(vec![]);
+        let last_err: std::cell::RefCell<Option<String>> = std::cell::RefCell::new(None);
+        run(up, &stmts, vec![("value".to_string(), value), ("kind".to_string(), V::Opt(None))], &actions, 0, &last_err);
         let acts = actions.borrow().clone();
         let decided: Vec<&String> = acts.iter().filter(|a| *a == "literal" || *a == "replaced" || *a == "display").collect();
         if decided.len() != 1 || decided[0] != want {
-            bad.push(format!("{}: {:?} (expected {}){}", name, acts, want, last_err.map(|e| format!(" [{}]", e)).unwrap_or_default()));
+            bad.push(format!("{}: {:?} (expected {}){}", name, acts, want, last_err.borrow().clone().map(|e| format!(" [{}]", e)).unwrap_or_default()));
         }
     }
     if bad.is_empty() {
